@@ -486,7 +486,7 @@ func (obj *Flavor) LoadForm() slip.Object {
 	for i, k := range keys {
 		ksym := slip.Symbol(k)
 		if v := obj.defaultVars[k]; v != nil {
-			ivs[i] = slip.List{ksym, v}
+			ivs[i] = slip.List{ksym, slip.LoadFormValue(v)}
 		} else {
 			ivs[i] = ksym
 		}
